@@ -4,9 +4,12 @@ from checks.common import anchored, bounded_part, want, contract_sources, make_r
 from pysym.harness import run_cases
 
 LEVEL = 'exploration'
-DEDUCTIVE = [('contracts.isoops', None)]          # (contract module, case-name filter) run by engine P
+# (contract module, case-name filter) run by engine P.  contracts.query: the statement's "pattern atom / bond matches its image" is the public `==`
+# of the query-atom classes, QueryBond and Bond; the reference enumerator of the bounded part (oracles/o07_ref.py) judges matches by that same `==`,
+# so the contracts that prove every `__eq__` equal to the documented predicate for all attribute values (shared with C08) are part of this check
+DEDUCTIVE = [('contracts.isoops', None), ('contracts.query', None)]
 FINISH = dict(rule='deductive: one obligation per path / table key; B: see run.bound entries of checks/b07.py',
-              explanation='F: no memoised value read by this property\'s observables survives an edit it depends on (one obligation per covered mutator x cached key); P: comparison operators defined from mapping existence for all size pairs; B: mapping multisets against an exhaustive reference enumerator',
+              explanation='P: every query-atom class __eq__, QueryBond.__eq__ and Bond.__eq__ equal the documented predicate for all attribute values (the match relation the statement and the reference enumerator use); F: no memoised value read by this property\'s observables survives an edit it depends on (one obligation per covered mutator x cached key); P: comparison operators defined from mapping existence for all size pairs; B: mapping multisets against an exhaustive reference enumerator',
               trusted_base=['CPython', 'z3', 'pysym', 'oracles/o07_ref.py'])
 replay = make_replay('C07')
 
